@@ -88,21 +88,43 @@ def run_mpi(scratch, script, args, nranks, extra=None, timeout=1800, cwd=None):
     """Run `script` as nranks processes under the multi-process MPI stand-in.
     Returns list of (rc, stdout, stderr) per rank."""
     mpidir = mkscratch("mpi")
-    procs = []
+    procs, files = [], []
     for r in range(nranks):
         env = py_env(scratch, mpi="multi", extra=extra, rank=r, size=nranks, mpidir=mpidir)
-        procs.append(subprocess.Popen([PY, script] + list(args), env=env, cwd=cwd or os.path.dirname(scratch),
-                                      stdout=subprocess.PIPE, stderr=subprocess.PIPE, text=True))
-    out = []
+        # output goes to files (a pipe nobody reads while the ranks are polled would block a talkative rank)
+        fo, fe = open(os.path.join(mpidir, "out.%d" % r), "w+"), open(os.path.join(mpidir, "err.%d" % r), "w+")
+        files.append((fo, fe))
+        procs.append(subprocess.Popen([PY, script] + list(args), env=env, cwd=cwd or os.path.dirname(scratch), stdout=fo, stderr=fe, text=True))
     t0 = time.time()
-    for p in procs:
-        try:
-            o, e = p.communicate(timeout=max(1, timeout - (time.time() - t0)))
-            out.append((p.returncode, o, e))
-        except subprocess.TimeoutExpired:
+    # a rank that ends with an error leaves the others waiting in a collective for good: they get `grace` seconds, then are killed
+    # (their exit status -9 and the note below say so); the overall time limit applies as before
+    grace, first_bad = 40, None
+    while True:
+        codes = [p.poll() for p in procs]
+        if all(c is not None for c in codes):
+            break
+        now = time.time()
+        if first_bad is None and any(c not in (None, 0) for c in codes):
+            first_bad = now
+        if now - t0 > timeout or (first_bad is not None and now - first_bad > grace):
+            break
+        time.sleep(0.2)
+    out = []
+    late = time.time() - t0 > timeout
+    for p, (fo, fe) in zip(procs, files):
+        killed = p.poll() is None
+        if killed:
             p.kill()
-            o, e = p.communicate()
-            out.append((-9, o, e + "\n[esrv] killed after timeout"))
+        p.wait()
+        fo.seek(0)
+        fe.seek(0)
+        o, e = fo.read(), fe.read()
+        fo.close()
+        fe.close()
+        if killed:
+            out.append((-9, o, e + "\n[esrv] killed: %s" % ("time limit" if late else "another rank ended with an error and this one kept waiting")))
+        else:
+            out.append((p.returncode, o, e))
     shutil.rmtree(mpidir, ignore_errors=True)
     return out
 
